@@ -471,6 +471,8 @@ def _worker(args):
 @rule("SV", ["C06", "C10", "C09", "C11"], "structs with dynamic fields and arrays of them: after every history of {update, field/item assignment, copy, refused assignment} every kept handle agrees with a fresh view, reads the expected values, and nothing outside the target changed")
 def sv(cx):
     m = cx.m
+    for _mod in ('struct', 'array', 'string', 'scalar', 'typeutils'):
+        m.mod(_mod)  # interpreted by the worker processes: recorded as consulted
     for q in ("struct::Struct._update", "struct::Struct._from_buffer", "struct::Struct.__init__", "struct::Field.get_offset", "array::Array._update", "array::Array.__setitem__", "array::Array._get_offset"):
         m.func(q)
     maxlen = 3 if cx.tier == "thorough" else 2
@@ -482,7 +484,7 @@ def sv(cx):
         cx.partial = True
     from concurrent.futures import ProcessPoolExecutor
 
-    jobs = min(16, os.cpu_count() or 1)
+    jobs = int(os.environ.get("XOVERIF_JOBS", min(16, os.cpu_count() or 1)))
     chunks = [hs[i::jobs * 4] for i in range(jobs * 4)]
     results = []
     with ProcessPoolExecutor(max_workers=jobs) as ex:
